@@ -18,6 +18,21 @@ CLAIMED = {
          "the value returned is the sequential one beyond that.",
     design_ref="DESIGN.md section 4, C16"),
 }
+CLAIMED["C01"] = dict(
+    technique="symbolic summaries on LLVM IR compared with the documented table walk (C01-walk); AST decision tables for the specificity order and error cells",
+    text="Decides necessary structural conditions of dispatch, not the behaviour for every registry: (walk) for every method of the witness "
+         "matrix (policies x signature shapes incl. non-virtual parameters before/between/after virtual ones x parameter kinds) the pointer "
+         "operator() calls and resolve() returns is, as a symbolic expression over the arguments, exactly the documented slots-then-strides walk "
+         "reading each virtual argument once, in order, and no non-virtual one. That update fills the tables with the right definition for every "
+         "lattice (a graph algorithm over run-time data) is not decided.",
+    design_ref="DESIGN.md section 4, C01")
+CLAIMED["C02"] = dict(
+    technique="IR symbolic summaries of the ids/constants stored into resolution_error; must-reach-abort path query after every handler call; landing-pad scan of the call path",
+    text="Decides the handler side of the property for all instantiations of the witness matrix: ids reported are Policy::dynamic_type of exactly "
+         "the virtual arguments' objects in order, arity/status constants are right and the right handler sits in each method_info field; after "
+         "every call of a policy error handler anywhere in the library every normal path aborts before returning; no catch / noexcept boundary on "
+         "the path swallows a throwing handler's exception. Does not decide that error cells are placed in the right table cells for every registry.",
+    design_ref="DESIGN.md section 4, C02")
 NA = {
 }
 DEFAULT_NA = "check not built yet (see DESIGN.md section 4 for the planned clause)"
@@ -29,7 +44,7 @@ m = {"version": 1,
                "source_commits": [], "add_only": True},
      "engines": [
         {"name": "yir", "path": "engine/yir.cpp", "kind_free_text": "LLVM-IR (post mem2reg) serialiser + Python rules lib/yv/{irq,eff,sym}.py: effect sets, symbolic summaries, path queries",
-         "serves_properties": ["C16"]},
+         "serves_properties": ["C01", "C02", "C16"]},
      ],
      "checks": [], "not_applicable": [],
      "notes": "Static analysis only. Exit codes: 0 held, 1 VIOLATION, 2 analysis broken (anchor vanished / floor not met). known_findings.json lists genuine defects (fixed / recorded)."}
